@@ -14,8 +14,30 @@ HOSTILE = ['"', '""', '"\\', '\\"', '{', '}', '{a', 'a}', '{,}', '{a,}', '# Lege
 ENTRIES = ["to_svg", "pretty", "compressed", "settings", ("override", 100.0, 50.0)]
 
 
+def gen_nested(rng):
+    """deep nesting and long repetition of one opener/closer: grammars that back-track, recursions that follow the
+    nesting depth and quadratic scans show only from a certain depth or length on"""
+    depth = rng.choice([8, 12, 16, 20, 24, 32, 48, 64, 128, 400, 3000])
+    opener = rng.choice(["{", "}", "{a=", "{a,", '"', '\\"', "(", "[", "<", "{{}", "a={", "# Legend:\n", "{\n", "'", "`"])
+    closer = {"{": "}", "(": ")", "[": "]", "<": ">", "{a=": "}", "{a,": "}", "a={": "}", "{\n": "}\n"}.get(opener, "")
+    body = opener * depth + rng.choice(["", "x", "fill:red"]) + closer * rng.choice([0, depth, depth // 2, depth + 1])
+    k = rng.below(5)
+    if k == 0:
+        return body
+    if k == 1:      # inside a legend declaration
+        return rng.choice(["", "+--+\n|{a}|\n+--+\n"]) + "# Legend:\na = {" + body + "}\n" + rng.choice(["", "b = {x:y}\n"])
+    if k == 2:      # as a legend of its own
+        return "+-+\n# Legend:\n" + body + "\n"
+    if k == 3:      # inside a shape
+        one = body.replace("\n", " ")[:200]
+        return gen.box(len(one) + 2, 1, inner=[" " + one])
+    return "-" * rng.below(4) + body + "-" * rng.below(4) + "\n" + body[: 40]
+
+
 def gen_hostile(rng):
-    r = rng.below(10)
+    r = rng.below(12)
+    if r >= 10:
+        return gen_nested(rng)
     if r >= 8:
         # a hostile token enclosed by a shape (the nesting stage looks at texts inside shapes)
         tok = rng.choice(HOSTILE + ['{}', '{ }', '"" ""', '"{"', '{""}']).replace("\n", " ").replace("\r", " ")
@@ -69,7 +91,8 @@ class Check(PropertyCheck):
     ]
 
     def rule(self):
-        return ("hostile generator families (quote/brace/backslash/legend fragments, dense random grids over the full "
+        return ("hostile generator families (quote/brace/backslash/legend fragments, openers nested or repeated 8 to 3000 deep "
+                "in a row, a legend declaration, a legend or a shape, dense random grids over the full "
                 "alphabet, mutated bundled diagrams, arbitrary Unicode scalars incl. NUL, controls, astral, zero-width) x "
                 "five entry points x scales {tiny, 0.5, 8, 1e6}; size sweep with timing; non-trivial = input of at least two "
                 "non-blank characters, distinct by input")
@@ -82,6 +105,8 @@ class Check(PropertyCheck):
         dis = []
         cases = []
         for t in self.inputs(self.scale(500, 8000)):
+            if len(t) > 2500:
+                continue        # very long single tokens: implementation only (oracle), the model driver is slow on them
             e = self.rng.choice(ENTRIES)
             st = backend.Settings() if e in ("to_svg", "pretty", "compressed") else \
                 backend.Settings(scale=self.rng.choice([8, 1, 0.5, 20]), b=self.rng.chance(1, 2), s=self.rng.chance(1, 2), d=self.rng.chance(1, 2))
